@@ -37,8 +37,9 @@ def _on_line(code, line):
     if _level:
         sim = sched._CURRENT
         if sim is not None:
-            if _level >= _MODES.get(code, 9):
-                return  # this file is traced per instruction in this run
+            mode = _MODES.get(code, 9)
+            if mode != 1 and _level >= mode:
+                return  # this file is traced per instruction in this run (mode 1 files only ever have line events)
             sim.preempt()
 
 
